@@ -137,6 +137,9 @@ func (r *runner) compareRecord(path string, rec *auditRec, where string, o *Obs,
 	if rec.FinishTime.Before(rec.StartTime) {
 		add("audit-time", where+": FinishTime before StartTime")
 	}
+	if d := rec.FinishTime.Sub(rec.StartTime); rec.ExecTimeNS != int64(d) {
+		add("audit-time", fmt.Sprintf("%s: ExecTimeNS %d is not FinishTime - StartTime (%d)", where, rec.ExecTimeNS, int64(d)))
+	}
 	if rec.ExecTimeNS < 0 {
 		add("audit-time", fmt.Sprintf("%s: negative ExecTimeNS %d", where, rec.ExecTimeNS))
 	}
